@@ -100,6 +100,7 @@ type world struct {
 	orig         proto.Message // the caller's request as decoded (before the handler chain saw it)
 	calls        []*callRec
 	resps        []proto.Message // what the children answered, in order
+	shapes       []string        // how the j-th answer is populated (script)
 	trailerEarly bool            // Trailer() read before the child stream ended
 }
 
@@ -134,7 +135,15 @@ func (w *world) sawRequest(rec *callRec, req any) {
 func (w *world) answer(reply any) {
 	m := reply.(proto.Message)
 	r := m.ProtoReflect().New()
-	fillRandom(r, w.rng, 3)
+	kind := "rand"
+	if j := len(w.resps); j < len(w.shapes) {
+		kind = w.shapes[j]
+	}
+	if sh, ok := shapeOf(kind); ok {
+		fillShaped(r, w.rng, 3, sh)
+	} else if kind != "empty" {
+		fillRandom(r, w.rng, 3)
+	}
 	w.resps = append(w.resps, r.Interface())
 	proto.Reset(m)
 	proto.Merge(m, r.Interface())
